@@ -17,7 +17,7 @@ import ast
 from .bits import AV, Sym, pow2_exp
 from .fold import (ClassRef, ExtRef, Folder, FuncRef, Unfoldable, _BINOPS, _BUILTINS,
                    _CMPOPS, _UNOPS)
-from .model import AnalysisError, ClassInfo, Module, unparse
+from .model import AnalysisError, ClassInfo, Module, Unsupported, unparse
 
 
 class Opaque:
@@ -194,7 +194,7 @@ class AbsInt:
                 alt = [d[1] for d in self._trace[:i]] + [not self._trace[i][1]]
                 stack.append(alt)
             if len(results) > limit:
-                raise AnalysisError('too many abstract outcomes')
+                raise Unsupported('too many abstract outcomes')
         return results
 
     def decide(self, node, why=''):
@@ -258,7 +258,7 @@ class AbsInt:
         for st in stmts:
             self.steps += 1
             if self.steps > 200000:
-                raise AnalysisError('abstract interpretation budget exceeded')
+                raise Unsupported('abstract interpretation budget exceeded')
             self.ex(st, env, m)
 
     def ex(self, st, env, m):
@@ -306,7 +306,7 @@ class AbsInt:
             while self.truth(self.ev(st.test, env, m), st.test):
                 n += 1
                 if n > 64:
-                    raise AnalysisError(f'while loop does not terminate abstractly at line {st.lineno}')
+                    raise Unsupported(f'while loop does not terminate abstractly at line {st.lineno}')
                 try:
                     self.ex_block(st.body, env, m)
                 except _Brk:
@@ -343,7 +343,7 @@ class AbsInt:
         elif isinstance(st, ast.With):
             self.ex_block(st.body, env, m)
         else:
-            raise AnalysisError(f'abstract interpreter: unsupported statement {type(st).__name__} at line {st.lineno}')
+            raise Unsupported(f'abstract interpreter: unsupported statement {type(st).__name__} at line {st.lineno}')
 
     def exc_name(self, st: ast.Raise, env, m):
         if st.exc is None:
@@ -380,7 +380,7 @@ class AbsInt:
             elif isinstance(base, list) and isinstance(key, int):
                 base[key] = v
             else:
-                raise AnalysisError(f'abstract store into {base!r}[{key!r}] at line {t.lineno}')
+                raise Unsupported(f'abstract store into {base!r}[{key!r}] at line {t.lineno}')
         elif isinstance(t, ast.Attribute):
             base = self.ev(t.value, env, m)
             if isinstance(base, AObj):
@@ -388,9 +388,9 @@ class AbsInt:
                 base.stores.append((t.attr, v, t))
                 log_event('store', base, t.attr, v)
             else:
-                raise AnalysisError(f'abstract attribute store on {base!r} at line {t.lineno}')
+                raise Unsupported(f'abstract attribute store on {base!r} at line {t.lineno}')
         else:
-            raise AnalysisError('assign target')
+            raise Unsupported('assign target')
 
     # ------------------------------------------------------------ expressions
     def ev(self, e, env, m):
@@ -659,9 +659,9 @@ class AbsInt:
             if x.is_const:
                 lo, hi = y.interval()
                 return _cmp_interval(_flip(op), lo - x.const, hi - x.const)
-        if isinstance(a, LenV) and isinstance(b, int):
+        if isinstance(a, LenV) and isinstance(b, (int, float)):
             return _cmp_len(op, a, b)
-        if isinstance(b, LenV) and isinstance(a, int):
+        if isinstance(b, LenV) and isinstance(a, (int, float)):
             return _cmp_len(_flip(op), b, a)
         if isinstance(a, LenV) and isinstance(b, LenV):
             if a.vars == b.vars:
@@ -843,7 +843,7 @@ class AbsInt:
                 except TypeError:
                     return list(it)
             return list(it)
-        raise AnalysisError(f'cannot iterate {it!r} at line {getattr(node, "lineno", "?")}')
+        raise Unsupported(f'cannot iterate {it!r} at line {getattr(node, "lineno", "?")}')
 
     def _comp(self, gens, env, m, emit):
         if not gens:
@@ -892,7 +892,7 @@ class AbsInt:
         def emit(en):
             k = self.ev(e.key, en, m)
             if not _hashable_const(k):
-                raise AnalysisError('symbolic dict key')
+                raise Unsupported('symbolic dict key')
             out[k] = self.ev(e.value, en, m)
         self._comp(e.generators, env, m, emit)
         return ADict(out)
@@ -911,6 +911,8 @@ class AbsInt:
                     return Opaque('**kwargs')
             else:
                 kwargs[kw.arg] = v
+        if isinstance(e.func, ast.Name) and e.func.id == 'isinstance' and 'isinstance' not in env and len(args) == 2:
+            return self.isinstance_(args, e)
         if isinstance(e.func, ast.Name) and e.func.id == 'vars' and 'vars' not in env and len(args) == 1:
             if isinstance(args[0], AObj):
                 view = ADict()
@@ -1062,7 +1064,7 @@ class AbsInt:
                     elif isinstance(a, dict):
                         new.update(a)
                     else:
-                        raise AnalysisError(f'dict.update with {a!r} at line {node.lineno}')
+                        raise Unsupported(f'dict.update with {a!r} at line {node.lineno}')
                 new.update(kwargs)
                 base.d.update(new)
                 if getattr(base, 'owner', None) is not None:
